@@ -17,6 +17,7 @@ _min_obs_quick = {
     "restart_points": 38000, "restarts_checked": 25000, "restart_iterates_compared": 120000,
     "restarts_positivity_on_start_image_unchanged": 1700, "restarts_positivity_on_start_image_lifted": 13000,
     "saved_iterates_read_back": 18000, "file_roundtrip_restarts": 4000,
+    "same_object_resumes_checked": 4000, "same_object_resume_iterates_compared": 17000,
 }
 
 prop("C07",
@@ -40,7 +41,9 @@ prop("C07",
            "plain OSEM; 12% randomised subset order; 25% with every iterate written to and read back from Interfile.  Every iterate "
            "is observed (input of each sub-gradient call of a recording objective function + returned target).  Restart: for every "
            "interruption point k (quick: 6 sampled per case) a FRESH reconstruction + objective function is started at k+1 from the "
-           "iterate after k (memory copy or the file the uninterrupted run saved), enforce_initial_positivity off (60%) or on.  "
+           "iterate after k (memory copy or the file the uninterrupted run saved), enforce_initial_positivity off (60%) or on; and in half of "
+           "the cases the SAME reconstruction + objective function objects are run for k sub-iterations, told to start at k+1, set up "
+           "again and run on (interrupted and resumed on the same objects): the second leg must equal the uninterrupted run bit for bit.  "
            "non-trivial = matrix with >= 30 non-zeros, non-zero counts, >= 2 updates compared with the reference formula; distinct = "
            "distinct case descriptor"),
      technique=("runtime monitoring: every iterate of real OSMAPOSL runs compared voxel by voxel with a float64 reference of the "
